@@ -134,6 +134,13 @@ func (r *upcastRegistry) apply(data json.RawMessage, eventType string) (json.Raw
 				upcaster.FromType, upcaster.ToType, err)
 		}
 
+		// The loop check above looks at the declared target; an upcaster may return
+		// another type. Guard on the type actually returned as well, otherwise a
+		// returned type that was already processed is upcast again for ever.
+		if appliedTypes[newType] {
+			return data, eventType, fmt.Errorf("eventbus: upcast loop detected")
+		}
+
 		currentData = newData
 		currentType = newType
 	}
